@@ -952,7 +952,7 @@ var summaryStrConv = map[string]Summary{
 	// func(s string, base int, bitSize int) (i int64, err error)
 	"strconv.ParseInt": {[][]int{{0}, {1}, {2}}, [][]int{{0}, {0}, {0}}},
 	// func ParseFloat(s string, bitSize int) (float64, error)
-	"strconv.ParseFloat": {[][]int{{0}, {1}, {2}}, [][]int{{0}, {0}, {0}}},
+	"strconv.ParseFloat": {[][]int{{0}, {1}}, [][]int{{0, 1}, {0}}},
 	// func Quote(s string) string
 	"strconv.Quote": SingleVarArgPropagation,
 	// func Unquote(s string) (string, error)
